@@ -274,3 +274,63 @@ def template_of(node):
                 return None
         return out, args
     return None
+
+
+def _terminates(stmts):
+    """A statement list that never falls through (ends in return / raise /
+    continue / break)."""
+    return bool(stmts) and isinstance(
+        stmts[-1], (ast.Return, ast.Raise, ast.Continue, ast.Break))
+
+
+def path_conditions(f, node):
+    """[(test expression, polarity)] that hold whenever control reaches `node`
+    in function f, read off the syntax: the tests of the enclosing `if`s (True
+    in the body, False in the else arm) *and* the guard clauses before it - an
+    earlier statement `if c: ...return/raise/continue/break` of an enclosing
+    block contributes (c, False), an `if c: ... else: <terminates>`
+    contributes (c, True).  The same list comes out whether the code nests
+    its conditions or leaves early."""
+    out = []
+
+    def rec(stmts, conds):
+        acc = list(conds)
+        for st in stmts:
+            if st is node or any(x is node for x in _head_nodes(st)):
+                out.extend(acc)
+                return True
+            for fld in ('body', 'orelse', 'finalbody'):
+                sub = getattr(st, fld, None)
+                if not (isinstance(sub, list) and sub and isinstance(
+                        sub[0], ast.stmt)):
+                    continue
+                c2 = list(acc)
+                if isinstance(st, ast.If):
+                    c2.append((st.test, fld == 'body'))
+                if rec(sub, c2):
+                    return True
+            for h in getattr(st, 'handlers', []) or []:
+                if rec(h.body, acc):
+                    return True
+            if isinstance(st, ast.If):
+                if _terminates(st.body) and not _terminates(st.orelse):
+                    acc.append((st.test, False))
+                elif st.orelse and _terminates(st.orelse) and \
+                        not _terminates(st.body):
+                    acc.append((st.test, True))
+        return False
+
+    def _head_nodes(st):
+        res = []
+        for name, val in ast.iter_fields(st):
+            if name in ('body', 'orelse', 'finalbody', 'handlers', 'cases'):
+                continue
+            vals = val if isinstance(val, list) else [val]
+            for v in vals:
+                if isinstance(v, ast.AST):
+                    res.extend(ast.walk(v))
+        res.append(st)
+        return res
+
+    rec(f.body, [])
+    return out
